@@ -24,6 +24,8 @@ var Harnesses = map[string]func(){
 	"verifh/hval.Compose":             hval.Compose,
 	"verifh/hval.Deterministic":       hval.Deterministic,
 	"verifh/hval.SchemaReadOnly":      hval.SchemaReadOnly,
+	"verifh/hval.SchemaLoadRef":       hval.SchemaLoadRef,
+	"verifh/hval.SchemaOrder":         hval.SchemaOrder,
 	"verifh/hval.SplitGapSelfTest":    hval.SplitGapSelfTest,
 	"verifh/hval.FrozenWriteSelfTest": hval.FrozenWriteSelfTest,
 }
